@@ -484,7 +484,7 @@ def fold_constant_switches(body):
     return body
 
 
-def thread_jumps(body, adts, max_rounds=6, max_new=400):
+def thread_jumps(body, adts, max_rounds=6, max_new=1500):
     """Jump threading for values that are constants on the way in: when a block sets a local to a constant (a bool, an enum
     literal such as Some(..)/None/Ok/Err) and control then runs through straight-line blocks into a switch on that local (or on its
     discriminant), the straight-line blocks are duplicated for this predecessor and the switch is replaced by the branch the
@@ -532,7 +532,7 @@ def thread_jumps(body, adts, max_rounds=6, max_new=400):
             cur = X['t']['t']
             env = dict(known)
             found = None
-            for _step in range(14):
+            for _step in range(48):
                 Cb = blocks[cur]
                 # statements of the straight-line block: track copies, forget redefinitions
                 disc = {}
